@@ -481,7 +481,10 @@ def run_history(read_archive, data, apath, hist, lookup):
             md = r.get_metadata()
             fn, path = getattr(md, "filename", None) or "", getattr(md, "file_path", None) or ""
             text = json.dumps(r.to_json(), default=repr)
-            return {"m": lookup.get(path, 0), "fn": fn[:400], "path": path[:700], "dg": digest_id(r),
+            m = lookup.get(path, 0)
+            if m == 0:      # a result from INSIDE a member (e.g. a nested archive that was opened): that member
+                m = next((j for raw, j in lookup.items() if raw and path.startswith(raw + "!/")), 0)
+            return {"m": m, "fn": fn[:400], "path": path[:700], "dg": digest_id(r),
                     "canary": 1 if CANARY in text else 0, "exc": ""}
         finally:
             STATE["mute"] -= 1
